@@ -388,6 +388,19 @@ Definition model_out (c : wcase) : list (res (list N)) :=
          end
      end) (fst c) (snd c).
 
+(* -- the library builders themselves (all of [builders]), each called with the translator's sentinel arguments and encoded
+   by the real ngap.Encoder: builder name, arguments by parameter name, TestPlmn before the call, observation *)
+Definition bcall := (string * list (string * aval) * list N * cobs)%type.
+Definition builder_enc_out (c : bcall) : res (list N) :=
+  let '(fn, args, plmn, _) := c in
+  match find_builder fn builders with Some b => encode_call b (mkenv args plmn) | None => Panic P_NO_VARIANT end.
+Definition builder_enc_check (c : bcall) : bool :=
+  let '(fn, args, plmn, o) := c in
+  match find_builder fn builders with
+  | Some b => negb (no_opaque b) || obs_matches (encode_call b (mkenv args plmn)) o
+  | None => false
+  end.
+
 (* -- specification side: uses neither Gen/Builders.v nor the encoder model *)
 Definition label_eqb (a b : alabel) : bool :=
   match a, b with
